@@ -25,6 +25,12 @@ CHECKS['C10'] = ('fault_enumeration', 'exhaustive fault injection (cancel at eve
     'exactly-once delivery, put order, waiter order, timely delivery and the close semantics on every execution.',
     'Trusts the list-model oracle and the DSL log; one queue, <= 2x2 items, <= 3 consumers, one injected fault.',
     'DESIGN.md section 3 C10')
+CHECKS['C12'] = ('fault_enumeration', 'exhaustive fault injection (cancel at every activation boundary, swept until-interrupt/close/close-all) into enumerated borrow/claim programs on the real resources, conservation bounds checked at every activation boundary',
+    'All programs of 1-3 borrowers/claimants (+ increase/decrease/set helper) on Capacities and Resources are executed fault-free and with one injected cancel / '
+    'until-interrupt / forceful close (of one or of all users) at every boundary resp. queue position; after EVERY activation the real levels must satisfy '
+    'supply - in_flight <= available <= supply - held and be non-negative, claims must never wait and fail exactly when unavailable, and at quiescence everything is back.',
+    'Trusts the phase bracketing of the DSL (acquiring/held/releasing/gone) and the arithmetic of the oracle; a block left abnormally may hand back until the end of that time step.',
+    'DESIGN.md section 3 C12')
 PENDING = {}
 
 def main():
